@@ -77,9 +77,10 @@ fn rpos(r: &RunResult, f: impl Fn(&Event) -> bool) -> usize {
 fn pool_tests(t: &mut T) {
     let scn = PoolScn {
         broadcasts: vec![
-            Bcast { n: 2, api: Api::ParExtend, panics: vec![], helper_caller: false, payload_bomb: false },
-            Bcast { n: 2, api: Api::ParExtend, panics: vec![1], helper_caller: false, payload_bomb: false },
+            Bcast { n: 2, api: Api::ParExtend, panics: vec![], helper_caller: false, payload_bomb: false, lane: 0 },
+            Bcast { n: 2, api: Api::ParExtend, panics: vec![1], helper_caller: false, payload_bomb: false, lane: 0 },
         ],
+        lanes: 1,
         spurious_parks: vec![],
         cas_weak_fail: vec![],
     };
